@@ -8,7 +8,12 @@ For seeded generated report descriptions (harness/gen_reports_views.py) the real
   (d) the console summary printed by print_report_as_test_run (in process, and through `lcc report --short` on a saved report),
   (e) compute_diff on pairs (the second report is a mutation of the first),
 are observed, printed as Gallina literals and compared inside Coq with the models.  The oracles (plain Python, independent of the
-models) evaluate the property on the observations by enumerating the tests of the description."""
+models) evaluate the property on the observations by enumerating the tests of the description.
+
+The models and the translator (harness/tables_views.py) describe the code WITH the repairs F12, F13, F14, F18
+(fixes/F12-*.patch ...): unfinished reports are judged like finished ones (every view returns, the counts agree, an in-progress
+test has no JUnit child).  The witnesses of these four defects are kept under "fixed" in known_findings.d/C20.json and replayed on
+every run: a fixed entry suppresses nothing, so a tree without a repair is reported with the concrete witness."""
 import contextlib
 import copy
 import io
@@ -95,7 +100,9 @@ def obs_message(report):
             assert p.endswith("%"), p
             p = p[:-1]
         vals.append(int(p))
-    return ["ok", vals]
+    # duration reads "n/a" when the report has no duration (F14 repaired); start_time / end_time are asctime(localtime(t)),
+    # the current time when t is None: clock-dependent text without outcome, not compared
+    return ["ok", vals, [int(parts[2] != "n/a")]]
 
 
 def parse_console(out):
@@ -139,7 +146,7 @@ def obs_console(report, f):
 
 
 def obs_from_suites(report, f):
-    """ReportStats.from_suites on the filtered suites, called directly (also reaches the empty list: IndexError)."""
+    """ReportStats.from_suites on the filtered suites, called directly (also reaches the empty selection)."""
     from lemoncheesecake.reporting import ReportStats
     from lemoncheesecake.testtree import filter_suites
     try:
@@ -280,8 +287,7 @@ def oracle(desc, o, producible):
                         yield ("junit:skipped-child:status=%s" % res["status"], "testcase %s.%s skipped child vs status %r" %
                                (name, cname, res["status"]))
                 nfail_children = sum(1 for c in cases if any(k in ("failure", "error") for k in c[1]))
-                if all(_verdict_consistent(t["result"]) for t in s["tests"]) and nfail_children != nf and \
-                        all(t["result"]["status"] is not None for t in s["tests"]):
+                if all(_verdict_consistent(t["result"]) for t in s["tests"]) and nfail_children != nf:
                     yield ("junit:counter-vs-children", "testsuite %r failures=%d but %d testcases carry a failure" %
                            (name, nf, nfail_children))
         if j[2] != by["failed"]:
@@ -307,6 +313,9 @@ def oracle(desc, o, producible):
         v = dict(zip(MSG_VARS, m[1]))
         want = {"total": n, "enabled": enabled, "passed": by["passed"], "failed": by["failed"], "skipped": by["skipped"],
                 "disabled": by["disabled"]}
+        if m[2][0] != int(desc["end"] is not None and desc["start"] is not None):
+            yield ("message:duration-na", "duration variable %s although report start=%r end=%r" %
+                   ("is a duration" if m[2][0] else "reads n/a", desc["start"], desc["end"]))
         if any(v[k] != want[k] for k in want):
             yield ("message:counts", "message variables %r, enumeration gives %r" % (v, want))
         else:
@@ -558,7 +567,7 @@ def c_stats(o):
 
 
 def c_message(o):
-    return c_verr(o, lambda o: c_list(o[1], c_Z))
+    return c_verr(o, lambda o: c_list(o[1] + o[2], c_Z))
 
 
 def c_console(o):
@@ -610,7 +619,8 @@ Definition sobs_eqb : sobs -> sobs -> bool :=
 Definition model_message (r : report) : vres (list Z) :=
   vres_map (fun m => let p := message_pcts m in
                      [Zn (mv_total m); Zn (mv_enabled m); Zn (mv_passed m); p_passed p; Zn (mv_failed m); p_failed p;
-                      Zn (mv_skipped m); p_skipped p; Zn (mv_disabled m); p_disabled p])
+                      Zn (mv_skipped m); p_skipped p; Zn (mv_disabled m); p_disabled p;
+                      match mv_duration m with Some _ => 1%Z | None => 0%Z end])
            (message_ints r).
 
 Definition cobs : Type := option (list (list nat) * list Z).
@@ -703,9 +713,12 @@ def encodable(o):
 
 # ----------------------------------------------------------------------------- known findings: witnesses replayed on every run
 def load_known():
+    """(entry, is_open) for the open findings and for the fixed ones: the witnesses of both are replayed on every run.
+    lib.Run.finish only looks at "findings" to decide between KNOWN-FINDING and VIOLATION: a fixed entry suppresses nothing."""
     if not os.path.exists(KNOWN_FINDINGS):
         return []
-    return json.load(open(KNOWN_FINDINGS)).get("findings", [])
+    d = json.load(open(KNOWN_FINDINGS))
+    return [(kf, True) for kf in d.get("findings", [])] + [(kf, False) for kf in d.get("fixed", [])]
 
 
 def replay_witness(w, tmp):
@@ -719,8 +732,8 @@ def check(run):
     run.trusted += [
         "modelled, not verified: xml.etree serialisation/parsing of the JUnit file (only tags, name/tests/failures/skipped "
         "attributes are compared), the time/timestamp/message attribute strings, humanize_duration, time.asctime",
-        "modelled, not verified: IEEE double arithmetic of the percentages (Coq primitive floats in Model/Stats.v pct_float, "
-        "compared with the implementation by the correspondence check only; no theorem depends on it)",
+        "modelled, not verified: Python int `*`, `//` on non-negative integers = Z multiplication / floor division "
+        "(Model/Stats.v pct; compared with the implementation on every generated report and on the 29/50 witness)",
         "modelled, not verified: ResultFilter restricted to the status/enabled/disabled criteria (path, tag, property, link, "
         "grep criteria are not modelled; the theorems quantify over an arbitrary predicate on results)",
     ]
@@ -760,21 +773,24 @@ def _check(run, tmp):
     n = 240 if quick else 6000
     n_cli = 12 if quick else 300
     per_file = 20 if quick else 100
-    # 1. witnesses of the known findings: re-observed now, on this tree
+    # 1. witnesses of the known findings, open and fixed: re-observed now, on this tree
     wit_cases = []
-    for kf in load_known():
+    for kf, is_open in load_known():
         w = kf.get("witness") or {}
         if "desc" not in w:
             continue
         sigs, o = replay_witness(w, tmp)
         run.evaluations += 1
+        # every oracle hit on a witness is a concrete failing input, first of all the entry's own signature
+        for sig, txt in sorted(oracle(w["desc"], o, w.get("producible", True)), key=lambda st: st[0] != kf["signature"]):
+            run.violation(sig, txt, {"desc": w["desc"], "producible": w.get("producible", True), "cli": w.get("cli", False)})
         if kf["signature"] in sigs:
-            txt = [t for s, t in oracle(w["desc"], o, w.get("producible", True)) if s == kf["signature"]][0]
-            run.violation(kf["signature"], txt, {"desc": w["desc"], "producible": w.get("producible", True),
-                                                 "cli": w.get("cli", False)})
-        else:
+            run.count("witness_still_failing")
+        elif is_open:
             run.notes.append("known finding %s no longer observed on its witness" % kf["signature"])
-        if not encodable(o):          # the witnesses are also correspondence cases (the 29/50 -> 57%% float case in particular)
+        else:
+            run.count("fixed_witness_passes")
+        if not encodable(o):          # the witnesses are also correspondence cases (the 29/50 percentage case in particular)
             wit_cases.append((w["desc"], case_term(w["desc"], o, w.get("cli", False))))
     # 2. generated reports
     cases, dcases, descs, ddescs = [c for _, c in wit_cases], [], [d for d, _ in wit_cases], []
@@ -889,8 +905,9 @@ def _check(run, tmp):
                         run.tie_broken("%s view = model" % name, case={"desc": small, "view": name},
                                        impl=o[{"from_suites": "fsuites"}.get(name, name)])
     run.coverage["rule"] = (
-        "seeded report descriptions from harness/gen_reports_views.py (sizes small/medium/large, 30% unfinished runs, 30% "
-        "'wild' inconsistent reports, all four statuses + in-progress, failures made of error logs only / failed checks only "
+        "the witnesses of the fixed findings F12, F13, F14, F18 (known_findings.d/C20.json) replayed first; then "
+        "seeded report descriptions from harness/gen_reports_views.py (sizes small/medium/large, 30% unfinished runs judged "
+        "like finished ones, 30% 'wild' inconsistent reports, all four statuses + in-progress, failures made of error logs only / failed checks only "
         "/ both, empty suites, setup-only suites, nested suites); every description is built as real Report objects and "
         "observed through the JUnit file, ReportStats, build_message, the console summary under 6 result filters (the first "
         "reports also through `lcc report --short` on a saved report) and, for every second one, compute_diff against a mutated "
